@@ -74,6 +74,22 @@ def run(chk):
     elif first_model_bad:
         chk.tie_broken("storage model vs header", "first disagreement (N,n1,n2,n3,impl,model) = %r" % (first_model_bad,))
 
+    # ---- (A1) the same probe runs under several OpenMP threads: the storage must be what one thread builds ----
+    # (run_harness defaults to OMP_NUM_THREADS=1; a fill() that shares state between threads shows only here)
+    big = "".join("probe %d %d %d\n" % (N, -2 * N - 3, 2 * N + 3) for N in (Ns + [5, 7] if quick else Ns + [8, 10]))
+    rc1, ref_out, _ = pv.run_harness(h, big, timeout=900)
+    for threads in ((8, 8, 3) if quick else (8, 8, 8, 3, 5, 16)):
+        rct, tout, terr = pv.run_harness(h, big, timeout=900, env={"OMP_NUM_THREADS": str(threads)})
+        chk.case("threads %d %s" % (threads, big), "storage probe under %d OpenMP threads" % threads, True, None)
+        if rct != rc1 or tout != ref_out:
+            a, b = ref_out.split("\n"), tout.split("\n")
+            first = next((i for i in range(min(len(a), len(b))) if a[i] != b[i]), min(len(a), len(b)))
+            chk.violation("storage depends on the number of OpenMP threads",
+                          "MatsubaraContainer4 filled under %d OpenMP threads returns other values than under 1 thread: first difference `%s` vs `%s` (P N n1 n2 n3 value...)"
+                          % (threads, (b[first] if first < len(b) else "(missing)")[:120], (a[first] if first < len(a) else "(missing)")[:120]),
+                          {"harness": "h_c15", "input": big, "env": {"OMP_NUM_THREADS": threads}, "first_difference_line": first})
+            break
+
     # ---- (A2) refill histories: fill(N1) ... fill(Nk) on the same container (shrinking, growing, to and from 0) ----
     seqs = [[2, 1], [3, 1], [1, 3], [3, 0, 2], [0, 2, 0], [3, 1, 2], [4, 2], [2, 2], [1, 0], [0, 1]]
     for _ in range(6 if quick else 40):
@@ -164,6 +180,17 @@ def run(chk):
         if rc != 0:
             chk.violation("h_c15 vertexseq crashed model=%s" % name, "harness exit %d: %s" % (rc, err[-300:]), {"input": inp, "stderr": err[-1500:]})
             continue
+        # the same recompute history with the real Vertex4 under 8 OpenMP threads (value() is expensive here, so a fill()
+        # that shares state between threads has a wide window): output must be identical to the single-thread run
+        rc8, out8, err8 = pv.run_harness(h, inp, timeout=900, env={"OMP_NUM_THREADS": "8"})
+        chk.case("threads 8 vertexseq %s" % name, "vertex recompute under 8 OpenMP threads", True, None)
+        if rc8 != 0 or out8 != out:
+            a, b = out.split("\n"), out8.split("\n")
+            first = next((i for i in range(min(len(a), len(b))) if a[i] != b[i]), min(len(a), len(b)))
+            chk.violation("vertex storage depends on the number of OpenMP threads",
+                          "Vertex4::compute(N) under 8 OpenMP threads stores other values than under 1 thread (model %s): `%s` vs `%s`"
+                          % (name, (b[first] if first < len(b) else "(missing)")[:160], (a[first] if first < len(a) else "(missing)")[:160]),
+                          {"harness": "h_c15", "input": inp, "env": {"OMP_NUM_THREADS": 8}})
         for l in out.split("\n"):
             if l.startswith("SS "):
                 t = l.split()
